@@ -35,7 +35,12 @@ pub struct Tx<'a> {
     pub new_vaults: BTreeSet<(usize, usize)>,
     /// number of outflows (withdraw / take / burn / recall) attempted on a container with live locks
     pub outflows_under_lock: u32,
+    /// ... on a container with at least two live locks
+    pub outflows_under_2: u32,
     pub max_live_proofs: u32,
+    exact_take_seen: bool,
+    /// an exact-balance take (bucket move) was followed by another worktop operation
+    pub exact_take_followed: bool,
 }
 
 fn merge(into: &mut Liquid, from: Liquid) {
@@ -74,7 +79,10 @@ impl<'a> Tx<'a> {
             burned_n: BTreeMap::new(),
             new_vaults: BTreeSet::new(),
             outflows_under_lock: 0,
+            outflows_under_2: 0,
             max_live_proofs: 0,
+            exact_take_seen: false,
+            exact_take_followed: false,
         }
     }
 
@@ -86,7 +94,7 @@ impl<'a> Tx<'a> {
         }
     }
     fn new_cont(&mut self, res: usize, liquid: Liquid, vault_of: Option<usize>) -> usize {
-        self.conts.push(Cont { res, liquid, flocks: BTreeMap::new(), nlocks: BTreeMap::new(), vault_of });
+        self.conts.push(Cont { res, liquid, flocks: BTreeMap::new(), nlocks: BTreeMap::new(), vault_of, written: false, ever_locked: false });
         self.conts.len() - 1
     }
 
@@ -128,7 +136,7 @@ impl<'a> Tx<'a> {
         } else {
             Liquid::N(NfHold { known: self.led.n.get(&(acct, res)).cloned().unwrap_or_default(), anon: 0 })
         };
-        Some(Cont { res, liquid, flocks: BTreeMap::new(), nlocks: BTreeMap::new(), vault_of: Some(acct) })
+        Some(Cont { res, liquid, flocks: BTreeMap::new(), nlocks: BTreeMap::new(), vault_of: Some(acct), written: false, ever_locked: false })
     }
 
     pub fn owner_ok(&self, acct: usize) -> bool {
@@ -163,8 +171,10 @@ impl<'a> Tx<'a> {
                 }
                 _ => return Err("any"),
             }
+            self.conts[c].written = true;
         }
         *self.conts[c].flocks.entry(amount).or_insert(0) += 1;
+        self.conts[c].ever_locked = true;
         Ok(())
     }
     fn unlock_f(&mut self, c: usize, amount: A) {
@@ -177,6 +187,9 @@ impl<'a> Tx<'a> {
         let new = self.conts[c].max_flock();
         if let Liquid::F(l) = &mut self.conts[c].liquid {
             *l += old - new;
+        }
+        if old != new {
+            self.conts[c].written = true;
         }
     }
     fn lock_n(&mut self, c: usize, ids: &Ids) -> Result<(), Why> {
@@ -195,6 +208,7 @@ impl<'a> Tx<'a> {
         for id in ids {
             *cont.nlocks.entry(id.clone()).or_insert(0) += 1;
         }
+        cont.ever_locked = true;
         Ok(())
     }
     fn unlock_n(&mut self, c: usize, ids: &Ids) {
@@ -246,9 +260,7 @@ impl<'a> Tx<'a> {
     /// Take `amount` out of the liquid part of a container (Vault/Bucket `take`).
     fn take_amount(&mut self, c: usize, amount: A) -> Result<Liquid, Why> {
         let res = self.conts[c].res;
-        if self.conts[c].locked() {
-            self.outflows_under_lock += 1;
-        }
+        self.note_outflow(c);
         if self.wd.res[res].is_f() {
             if !self.on_grid(res, amount) {
                 return Err("invalid_amount");
@@ -258,6 +270,7 @@ impl<'a> Tx<'a> {
                 return Err("insufficient");
             }
             *l -= amount;
+            self.conts[c].written = true;
             Ok(Liquid::F(amount))
         } else {
             if amount < 0 || amount % ONE != 0 || amount / ONE > u32::MAX as A {
@@ -279,10 +292,16 @@ impl<'a> Tx<'a> {
             }
         }
     }
-    fn take_ids(&mut self, c: usize, ids: &Ids) -> Result<Liquid, Why> {
+    fn note_outflow(&mut self, c: usize) {
         if self.conts[c].locked() {
             self.outflows_under_lock += 1;
         }
+        if self.conts[c].lock_count() >= 2 {
+            self.outflows_under_2 += 1;
+        }
+    }
+    fn take_ids(&mut self, c: usize, ids: &Ids) -> Result<Liquid, Why> {
+        self.note_outflow(c);
         let Liquid::N(h) = &mut self.conts[c].liquid else { return Err("any") };
         for id in ids {
             if !h.known.contains(id) {
@@ -330,6 +349,9 @@ impl<'a> Tx<'a> {
             return Err("locked");
         }
         let l = std::mem::replace(&mut self.conts[c].liquid, Liquid::F(0));
+        if !matches!(l, Liquid::F(0)) {
+            self.conts[v].written = true;
+        }
         merge(&mut self.conts[v].liquid, l);
         Ok(())
     }
@@ -394,6 +416,11 @@ impl<'a> Tx<'a> {
         let mut evidence = vec![];
         let zone = self.zone.clone();
         'outer: for p in &zone {
+            // the engine decodes EVERY proof it walks over as a fungible proof (unwrap): a
+            // non-fungible proof met before the walk ends traps the native call
+            if !matches!(p.total, PAmt::F(_)) {
+                return Err("trap");
+            }
             for (c, _) in &p.evidence {
                 if remaining == 0 {
                     break 'outer;
@@ -438,6 +465,9 @@ impl<'a> Tx<'a> {
         let mut evidence = vec![];
         let zone = self.zone.clone();
         'outer: for p in &zone {
+            if !matches!(p.total, PAmt::N(_)) {
+                return Err("trap");
+            }
             for (c, _) in &p.evidence {
                 if remaining.is_empty() {
                     break 'outer;
@@ -463,6 +493,11 @@ impl<'a> Tx<'a> {
 
     pub fn apply(&mut self, ins: &Ins) -> Result<(), Why> {
         use Ins::*;
+        if self.exact_take_seen
+            && matches!(ins, Take { .. } | TakeIds { .. } | TakeAll { .. } | Return { .. } | AssertAmount { .. } | AssertIds { .. } | AssertAny { .. } | DepositWorktop { .. })
+        {
+            self.exact_take_followed = true;
+        }
         match ins {
             LockFeeFaucet => {
                 self.faucet_fee = true;
@@ -519,6 +554,7 @@ impl<'a> Tx<'a> {
                 if have == *amount {
                     self.worktop.remove(res);
                     self.name_bucket(ex);
+                    self.exact_take_seen = true;
                     return Ok(());
                 }
                 let l = self.take_amount(ex, *amount)?;
@@ -547,6 +583,7 @@ impl<'a> Tx<'a> {
                 if self.conts[ex].anon() == 0 && all.len() == ids.len() {
                     self.worktop.remove(res);
                     self.name_bucket(ex);
+                    self.exact_take_seen = true;
                     return Ok(());
                 }
                 let l = self.take_ids(ex, ids)?;
@@ -607,7 +644,7 @@ impl<'a> Tx<'a> {
                     return Err("auth");
                 }
                 if self.conts[c].locked() {
-                    self.outflows_under_lock += 1;
+                    self.note_outflow(c);
                     return Err("locked");
                 }
                 let l = std::mem::replace(&mut self.conts[c].liquid, Liquid::F(0));
@@ -976,11 +1013,15 @@ impl<'a> Tx<'a> {
         if amount < 0 {
             return Err("invalid_amount");
         }
+        if self.conts[v].written {
+            return Err("fee_touched");
+        }
         let Liquid::F(l) = &mut self.conts[v].liquid else { unreachable!() };
         if *l < amount {
             return Err("insufficient");
         }
         *l -= amount;
+        self.conts[v].written = true;
         *self.fee_locked.entry(acct).or_insert(0) += amount;
         if !contingent && amount >= 20 * ONE {
             self.fee_ok = true;
@@ -1025,13 +1066,15 @@ pub fn acceptable_errors(why: Why) -> &'static [&'static str] {
         "nobucket" => &["BucketNotFound"],
         "noproof" => &["ProofNotFound"],
         "zone_empty" => &["AuthZoneIsEmpty"],
-        "locked" => &["Locked"],
+        "locked" => &["Locked", "NodeBorrowed"],
+        "trap" => &["Trap"],
+        "fee_touched" => &["LockUnmodifiedBaseOnOnUpdatedSubstate"],
         "exists" => &["NonFungibleAlreadyExists"],
         "emptyproof" => &["EmptyProofNotAllowed"],
         "insufficient_proofs" => &["InsufficientBaseProofs"],
-        "leftover_worktop" => &["DropNonEmptyBucket", "Locked"],
+        "leftover_worktop" => &["DropNonEmptyBucket", "Locked", "NodeBorrowed"],
         "orphan" => &["NodeOrphaned", "OrphanedNodes"],
-        "deposit" => &["VaultIsFrozen", "Locked"],
+        "deposit" => &["VaultIsFrozen", "Locked", "NodeBorrowed"],
         _ => &[],
     }
 }
